@@ -235,14 +235,66 @@ def splice_body(em_obls, body, fspec, unit, fname, rw):
             k = loop_idx[ordinal]
             bo = find_body_open(out, k + 1)
             inv = ''
-            if ls.get('invariant'):
+            r8 = [q for q in range(k, bo) if out[q].kind == 'r8mark']
+            auto_inv, auto_dec = None, None
+            if r8:
+                n8 = int(re.search(r'R8:(\d+)', out[r8[0]].text).group(1))
+                auto_inv = '__more%d ==> __next%d <= __hi%d, __lo%d <= __next%d' % (n8, n8, n8, n8, n8)
+                auto_dec = '(if __more%d { (__hi%d - __next%d + 1) as int } else { 0 })' % (n8, n8, n8)
+                out[r8[0]] = T('ws', ' ', out[r8[0]].start)
+            if ls.get('invariant') or auto_inv:
                 inv += '\n        invariant\n'
-                for (label, tags, c) in ls['invariant']:
+                if auto_inv:
+                    inv += '            ' + auto_inv + ',\n'
+                for (label, tags, c) in ls.get('invariant') or []:
                     inv += '            ' + ' '.join(x.strip() for x in c.rstrip().rstrip(',').split('\n')) + ',\n'
-            if ls.get('decreases'):
-                inv += '        decreases ' + ls['decreases'] + '\n'
+            if ls.get('decreases') or auto_dec:
+                inv += '        decreases ' + (ls.get('decreases') or auto_dec) + '\n'
             if out[k].text == 'for' and ls.get('range_incl'):
                 pass
+            if out[k].text == 'for' and ls.get('map_entries'):
+                # R10c: consuming `for (K, V) in MAP {` -> `let __entriesN = MAP.into_entries_(); for __eN in __entriesN.iter() { let (K, V) = (__eN.0.clone(), __eN.1.clone());`
+                j = k + 1
+                while not is_id(out[j], 'in'):
+                    if out[j].kind == 'punct' and out[j].text in OPEN:
+                        j = match_close(out, j)
+                    j += 1
+                pat = text_of(out[k + 1:j]).strip()
+                mp = text_of(out[j + 1:bo]).strip()
+                rw.rec('R10', 'for %s in %s' % (pat, mp), 'for __e in %s.into_entries_().iter() { let %s = (__e.0.clone(), __e.1.clone()); .. }' % (mp, pat))
+                out[bo + 1:bo + 1] = [T('raw', ' let %s = (__e%d.0.clone(), __e%d.1.clone());' % (pat, ordinal, ordinal), out[bo].start)]
+                out[j + 1:bo] = [T('raw', ' __entries%d.iter() ' % ordinal, out[j].start)]
+                out[k + 1:j] = [T('raw', ' __e%d ' % ordinal, out[k].start)]
+                out[k:k] = [T('raw', 'let __entries%d = %s.into_entries_();\n    ' % (ordinal, mp), out[k].start)]
+                k += 1
+                bo = find_body_open(out, k + 1)
+            if out[k].text == 'for' and ls.get('indexed'):
+                # R8d: consuming `for PAT in VEC {B}` whose body uses `continue` -> index loop that advances before the body
+                j = k + 1
+                while not is_id(out[j], 'in'):
+                    if out[j].kind == 'punct' and out[j].text in OPEN:
+                        j = match_close(out, j)
+                    j += 1
+                pat = text_of(out[k + 1:j]).strip()
+                vec = text_of(out[j + 1:bo]).strip()
+                if vec.startswith('&'):
+                    vec = vec[1:].strip()
+                be2 = match_close(out, bo)
+                rw.rec('R8d', 'for %s in %s' % (pat, vec), 'while __i%d < %s.len() { let %s = %s[__i%d].clone(); __i%d += 1; .. }' % (ordinal, vec, pat, vec, ordinal, ordinal))
+                inv_txt = ''
+                if ls.get('invariant'):
+                    inv_txt += '\n        invariant\n'
+                    for (label, tags, c) in ls['invariant']:
+                        inv_txt += '            ' + ' '.join(x.strip() for x in c.rstrip().rstrip(',').split('\n')) + ',\n'
+                inv_txt += '        decreases %s.len() - __i%d\n    ' % (vec, ordinal)
+                head = [T('raw', '{ let mut __i%d: usize = 0;\n    ' % ordinal, out[k].start), T('ident', 'while', out[k].start),
+                        T('raw', ' __i%d < %s.len() %s' % (ordinal, vec, inv_txt), out[k].start)]
+                first = [T('raw', ' let %s = %s[__i%d].clone(); __i%d = __i%d + 1;\n%s\n' % (pat, vec, ordinal, ordinal, ordinal, '\n'.join(ls.get('loop_begin', []))), out[bo].start)]
+                tail = [T('raw', '\n' + '\n'.join(ls.get('loop_end', [])) + '\n', out[be2].start)] if ls.get('loop_end') else []
+                after = [T('raw', ' }\n' + '\n'.join(ls.get('loop_after', [])) + '\n', out[be2].start)]
+                before = [T('raw', '\n'.join(ls.get('loop_before', [])) + '\n', out[k].start)] if ls.get('loop_before') else []
+                out[k:be2 + 1] = before + head + [out[bo]] + first + out[bo + 1:be2] + tail + [out[be2]] + after
+                continue
             if out[k].text == 'for' and ls.get('clone_elems'):
                 # R8b: consuming `for PAT in VEC {`  ->  `for __e in VEC.iter() { let PAT = __e.clone();`
                 j = k + 1
@@ -283,7 +335,14 @@ def splice_body(em_obls, body, fspec, unit, fname, rw):
             if ls.get('loop_before'):
                 out[k:k] = [T('raw', '\n'.join(ls['loop_before']) + '\n    ', out[k].start)]
         body = out
-    return body
+    out = []
+    for t_ in body:
+        if t_.kind == 'r8mark':
+            n8 = int(re.search(r'R8:(\d+)', t_.text).group(1))
+            out.append(T('raw', '\n        invariant __more%d ==> __next%d <= __hi%d, __lo%d <= __next%d,\n        decreases (if __more%d { (__hi%d - __next%d + 1) as int } else { 0 })\n    ' % (n8, n8, n8, n8, n8, n8, n8, n8), t_.start))
+        else:
+            out.append(t_)
+    return out
 
 
 def desugar_incl_ranges(body, fspec, rw):
@@ -319,11 +378,12 @@ def desugar_incl_ranges(body, fspec, rw):
                 be = match_close(out, bo)
                 n = n_done
                 head = ('{ let mut __next%d: u64 = %s; let __hi%d: u64 = %s; let ghost __lo%d: u64 = __next%d; '
-                        'let mut __more%d: bool = __next%d <= __hi%d;\n    while __more%d ' % (n, lo, n, hi, n, n, n, n, n, n))
+                        'let mut __more%d: bool = __next%d <= __hi%d;\n    ' % (n, lo, n, hi, n, n, n, n, n))
                 first = (' let %s = __next%d; if __next%d == __hi%d { __more%d = false; } else { __next%d = __next%d + 1; }\n'
                          % (pat, n, n, n, n, n, n))
                 rw.rec('R8', text_of(out[k:bo]), 'while-loop over __next%d..=__hi%d' % (n, n))
-                new = [T('raw', head, t.start)] + [out[bo]] + [T('raw', first, out[bo].start)] + out[bo + 1:be + 1] + [T('raw', ' }', out[be].start)]
+                new = ([T('raw', head, t.start), T('ident', 'while', t.start), T('raw', ' __more%d ' % n, t.start), T('r8mark', '/*R8:%d*/' % n, t.start)] + [out[bo]]
+                       + [T('raw', first, out[bo].start)] + out[bo + 1:be + 1] + [T('raw', ' }', out[be].start)])
                 # keep a `while` keyword token so that loop ordinals still count this loop once
                 out[k:be + 1] = new
                 n_done += 1
@@ -646,6 +706,9 @@ def collect_lemma_obligations(em, unit, fname, src, base):
             depth = 0
             started = False
             while j < len(lines):
+                if lines[j].lstrip().startswith('//'):
+                    j += 1
+                    continue
                 depth += lines[j].count('{') - lines[j].count('}')
                 if '{' in lines[j]:
                     started = True
